@@ -31,6 +31,10 @@ fn responder() -> vcommon::rawhttp::Responder {
         let seg: usize = qparam(&t, "seg").and_then(|v| v.parse().ok()).unwrap_or(0);
         let body = pattern(len, id);
         let mut head = format!("HTTP/1.1 {st} Status{st}\r\nX-Echo-Id: {id}\r\nX-Resp: r1\r\nx-resp: r2\r\nX-MiXeD-Resp: Va Lue\r\nContent-Type: application/octet-stream\r\n");
+        let host_closes = qparam(&t, "hc").is_some();
+        if host_closes {
+            head.push_str("Connection: close\r\n");
+        }
         let no_body = m.method() == "HEAD" || st == 204;
         let mut wire: Vec<u8>;
         if no_body {
@@ -73,6 +77,9 @@ fn responder() -> vcommon::rawhttp::Responder {
         }
         // write in segments with boundaries at multiples of `seg` bytes of the wire image
         let segs: Vec<Vec<u8>> = if seg == 0 || wire.len() <= seg { vec![wire] } else { vec![wire[..seg].to_vec(), wire[seg..].to_vec()] };
+        if host_closes {
+            return Action::ReplyClose(segs);
+        }
         Action::Reply(segs)
     })
 }
@@ -634,10 +641,115 @@ fn main() {
             }
         }
         res.cov("unusual_but_legal_requests", odd_n);
+        // family 8: large answers to a client that reads slowly while the proxy is the side that closes first (the client
+        // asked for `Connection: close` or speaks HTTP/1.0): every byte still arrives, and the end is a clean end of stream
+        let mut slowread_n = 0u64;
+        {
+            use std::io::Read;
+            for (label, head_extra, version) in [("connection-close", "Connection: close\r\n", "1.1"), ("http-1.0", "", "1.0")] {
+                for len in if thorough { vec![300_000usize, 2_000_000, 16_000_000] } else { vec![300_000usize, 4_000_000] } {
+                    for fr in ["cl", "ch"] {
+                        id += 1;
+                        slowread_n += 1;
+                        sport = if sport >= 39000 { 36000 } else { sport + 1 };
+                        let target = format!("/slowread?id={id}&st=200&len={len}&fr={fr}&seg=0");
+                        let raw = format!("GET {target} HTTP/{version}\r\nHost: h\r\n{head_extra}\r\n").into_bytes();
+                        let case = json!({"family": "slow-reader-proxy-closes-first", "client": label, "response_body": len, "response_framing": fr});
+                        nontrivial.insert(case.to_string());
+                        evals += 1;
+                        let mut c = match w.connect(Some(sport), Some(&rec)) {
+                            Ok(c) => c,
+                            Err(e) => vcommon::result::machinery(&format!("connect: {e}")),
+                        };
+                        // a small receive buffer and paced reads: the proxy has written everything and closed long before the
+                        // client has read it
+                        unsafe {
+                            use std::os::fd::AsRawFd;
+                            let sz: libc::c_int = 16384;
+                            libc::setsockopt(c.stream.as_raw_fd(), libc::SOL_SOCKET, libc::SO_RCVBUF, &sz as *const _ as *const _, 4);
+                        }
+                        let _ = c.send(&raw);
+                        let _ = c.stream.set_read_timeout(Some(Duration::from_secs(20)));
+                        let mut got: Vec<u8> = Vec::with_capacity(len + 1024);
+                        let mut buf = vec![0u8; 65536];
+                        let mut err: Option<String> = None;
+                        loop {
+                            match c.stream.read(&mut buf) {
+                                Ok(0) => break,
+                                Ok(n) => {
+                                    got.extend_from_slice(&buf[..n]);
+                                    std::thread::sleep(Duration::from_millis(2));
+                                }
+                                Err(e) => {
+                                    err = Some(e.to_string());
+                                    break;
+                                }
+                            }
+                        }
+                        let parsed = vcommon::rawhttp::parse(&got, true, false, true);
+                        let want = pattern(len, id);
+                        match parsed {
+                            vcommon::rawhttp::Parse::Complete(m, _) if m.body == want && m.status() == 200 && err.is_none() => {}
+                            vcommon::rawhttp::Parse::Complete(m, _) => res.violation("response:body-changed:slow-reader", &format!("client ({label}) reading 64 KiB every 2 ms got status {} and {} of {len} body bytes, read error {:?}", m.status(), m.body.len(), err), case),
+                            _ => res.violation("response:cut-short:slow-reader", &format!("client ({label}) reading 64 KiB every 2 ms got {} bytes on the wire of a {len}-byte body and then {:?}", got.len(), err.unwrap_or("end of stream".into())), case),
+                        }
+                    }
+                }
+            }
+        }
+        res.cov("slow_reader_requests", slowread_n);
+        // family 9: two clients of one endpoint at the same time, each on its own kept-alive connection; one of them ends its
+        // connection with `Connection: close` (or the host ends that exchange with it) between two requests of the other
+        let mut conc_n = 0u64;
+        {
+            for closer in ["client-connection-close", "http-1.0-client", "host-connection-close"] {
+                let p1 = { sport = if sport >= 39000 { 36000 } else { sport + 1 }; sport };
+                let p2 = { sport = if sport >= 39000 { 36000 } else { sport + 1 }; sport };
+                let mut b = w.connect(Some(p1), Some(&rec)).unwrap_or_else(|e| vcommon::result::machinery(&format!("connect: {e}")));
+                let mut ask = |c: &mut vcommon::rawhttp::Client, raw: Vec<u8>| c.send(&raw).map_err(|e| e.to_string()).and_then(|_| c.read_response(false, Duration::from_secs(10)));
+                let mut ok = true;
+                let mut detail = String::new();
+                for step in 0..3 {
+                    id += 1;
+                    conc_n += 1;
+                    evals += 1;
+                    let t = format!("/conc/b?id={id}&st=200&len=5&fr=cl");
+                    match ask(&mut b, build_request("GET", &t, &[("Host", b"h")], None, None)) {
+                        Ok(r) if r.status() == 200 && r.body == pattern(5, id) => {}
+                        other => {
+                            ok = false;
+                            detail = format!("request {} of the kept-alive client got {:?}", step + 1, other.map(|r| (r.status(), r.body.len())));
+                            break;
+                        }
+                    }
+                    if step == 0 {
+                        // the other client comes and goes
+                        id += 1;
+                        let mut a = w.connect(Some(p2), Some(&rec)).unwrap_or_else(|e| vcommon::result::machinery(&format!("connect: {e}")));
+                        let ta = format!("/conc/a?id={id}&st=200&len=5&fr=cl{}", if closer == "host-connection-close" { "&hc=1" } else { "" });
+                        let raw = match closer {
+                            "client-connection-close" => build_request("GET", &ta, &[("Host", b"h"), ("Connection", b"close")], None, None),
+                            "http-1.0-client" => format!("GET {ta} HTTP/1.0\r\nHost: h\r\n\r\n").into_bytes(),
+                            _ => build_request("GET", &ta, &[("Host", b"h")], None, None),
+                        };
+                        let _ = ask(&mut a, raw);
+                        a.close();
+                        std::thread::sleep(Duration::from_millis(30));
+                    }
+                }
+                b.close();
+                let case = json!({"family": "two-clients-one-endpoint", "the_other_client": closer});
+                nontrivial.insert(case.to_string());
+                if !ok {
+                    res.violation("response:not-the-hosts:after-another-client-left", &format!("while another client of the same endpoint ended its own connection ({closer}): {detail}"), case);
+                }
+            }
+        }
+        res.cov("two_clients_one_endpoint_requests", conc_n);
         res.cov("host_dies_mid_answer_requests", aborted_n);
         res.cov("exempt_upload_requests", exempt_n);
         res.cov("pipelines", pipelines);
-        res.cov("rule", format!("one request per fresh attributed connection for the product of 5 methods x {} client header sets (repeated names in three spellings, empty value, punctuation, names resembling the proxy-owned ones, connection-management headers, 14 well-known request headers) x {} request body framings (0..102400 bytes, content-length / chunks of 1, 7, 4096 / single chunk) x {} host answers (status 200/204/404/500, body 0/1/70000 bytes covering all byte values, content-length or chunked, TCP segment boundary at 0/1/2/4095/4096/4097), with a key latched and (slice) without; plus {} pipelines of 1-3 back-to-back requests on 1 and 2 concurrent keep-alive connections; plus a SAMPLED family of 300 (1200) back-to-back request pairs on kept-alive connections while the agent's runtime workers are held 0.7 ms at a time; plus three uploads that take 10.8 s in total (4 pieces 3.6 s apart; exempt and signed route, content-length and chunked); plus 30 absolute-form request targets (3 authorities x 5 path/query shapes x 2 methods): path and query unchanged at the host; plus 28 requests whose query merely contains dots / escaped dots or whose head is 8 KiB .. 100 KiB large; plus answers cut off by the death of the host at 10 offsets (inside the head, 0/1/3/4000/8197 bytes into the body, 8/5/3/1 bytes before the end) x content-length/chunked x 2 sizes, which must not reach the client as a complete message; plus the two signature-exempt uploads with 9 body framings (0 bytes .. 1 MiB, content-length and chunked) x 2 header sets; the host's answer is a function of the request target and echoes the request id", hsets, req_bodies.len(), resps.len(), pipelines));
+        res.cov("rule", format!("one request per fresh attributed connection for the product of 5 methods x {} client header sets (repeated names in three spellings, empty value, punctuation, names resembling the proxy-owned ones, connection-management headers, 14 well-known request headers) x {} request body framings (0..102400 bytes, content-length / chunks of 1, 7, 4096 / single chunk) x {} host answers (status 200/204/404/500, body 0/1/70000 bytes covering all byte values, content-length or chunked, TCP segment boundary at 0/1/2/4095/4096/4097), with a key latched and (slice) without; plus {} pipelines of 1-3 back-to-back requests on 1 and 2 concurrent keep-alive connections; plus a SAMPLED family of 300 (1200) back-to-back request pairs on kept-alive connections while the agent's runtime workers are held 0.7 ms at a time; plus three uploads that take 10.8 s in total (4 pieces 3.6 s apart; exempt and signed route, content-length and chunked); plus 30 absolute-form request targets (3 authorities x 5 path/query shapes x 2 methods): path and query unchanged at the host; plus 28 requests whose query merely contains dots / escaped dots or whose head is 8 KiB .. 100 KiB large; plus answers of 0.3 .. 4 (16) MB read by a client that takes 64 KiB every 2 ms through a 16 KiB receive buffer while the proxy is the side that closes (Connection: close, HTTP/1.0); plus two clients of one endpoint on their own kept-alive connections, one leaving with Connection: close / as an HTTP/1.0 client / on the host's Connection: close between two requests of the other; plus answers cut off by the death of the host at 10 offsets (inside the head, 0/1/3/4000/8197 bytes into the body, 8/5/3/1 bytes before the end) x content-length/chunked x 2 sizes, which must not reach the client as a complete message; plus the two signature-exempt uploads with 9 body framings (0 bytes .. 1 MiB, content-length and chunked) x 2 header sets; the host's answer is a function of the request target and echoes the request id", hsets, req_bodies.len(), resps.len(), pipelines));
     } else {
         // ---------------- C15 ----------------
         w.set_key(Some(K1));
